@@ -26,7 +26,8 @@ MANIFEST = dict(
     technique='abstract interpretation of check_block_signatures / verify_sign with symbolic keys, weights (polynomials) and an oracle model of Ed25519; complete enumeration of signature sequences over small validator sets; accept condition compared as a normalised polynomial inequality',
     text='Decides for every validator set of 0..3 members with symbolic weights and every signature sequence of length <= 3(4) over valid / invalid / foreign-payload / unknown-signer entries '
          'that the set is accepted iff all signatures are valid signatures of the block payload by known distinct validators and 3*signed > 2*total (as a polynomial inequality, so for all weights), '
-         'including the empty set and duplicates; node-id and payload derivations are checked as terms.',
+         'including the empty set and duplicates; node-id and payload derivations are checked as terms.'
+         " Signatures of the wrong length (PyNaCl's own ValueError, a CryptoError) never count as valid.",
     note='trusted: interpreter, polynomial normaliser, the Ed25519 oracle model (nacl is not analysed), collision-freeness of SHA-256 (distinct terms = distinct ids). Not decided: larger validator sets (the loop bodies are uniform).',
     design_ref='DESIGN.md section 4 C12')
 
